@@ -7,6 +7,7 @@ CONSTANTS
   SharedEqualRecords = FALSE
   ClassLevelOption = FALSE
   StoreBeforeValidate = FALSE
+  ReorderStoresPlainKeys = FALSE
   Emit = FALSE
   EmitOff = 0
 SPECIFICATION TSpec
